@@ -12,23 +12,30 @@ Record qobs := QO { o_q : qd; o_res : outcome }.
 Record c13case := C13 {
   c_muts : list (mutation val);      (* attempted mutations, in order (failing ones included) *)
   g_stored : vstore val;             (* Store.Get of every id after the history *)
-  g_keys : kdb;                      (* every database key under "k:" / "kb:" after Flush, iteration order *)
+  c_vprefix : bytes;                 (* what the store puts before an id to form the value key ("v." or nothing) *)
+  g_keys : kdb;                      (* EVERY database key after Flush, iteration order: index entries and
+                                        the raw value keys the iterator also walks over *)
   g_queries : list qobs              (* IndexQuery.FetchCollection results after Flush *)
 }.
 
+(* the whole key space of the database: the index entries and one value key per stored value *)
+Definition with_value_keys (vprefix : bytes) (st : vstore val) (d : kdb) : kdb :=
+  fold_left (fun d p => db_set (vprefix ++ fst p) d) st d.
+
 (* field codes: 1 key space  2 a query result  3 stored values *)
 Definition check_case (c : c13case) : list N :=
-  let '(st, d, _) := run_history idxs 0 (c_muts c) in
+  let '(st, d0, _) := run_history idxs 0 (c_muts c) in
+  let d := with_value_keys (c_vprefix c) st d0 in
   (if list_eqb beq d (g_keys c) then [] else [1]) ++
   (if forallb (fun o => outcome_eqb (fetch_collection d (to_iq (o_q o))) (o_res o)) (g_queries c) then [] else [2]) ++
   (if store_eqb st (g_stored c) then [] else [3]).
 
 (* violation codes:
    1 a query result is not the sorted / filtered / windowed scan of the stored values
-   2 the index key space is not { name:key\0id | stored value, key <> nil } *)
+   2 the key space is not { name:key\0id | stored value, key <> nil } plus the value keys *)
 Definition viol_case (c : c13case) : list N :=
   (if forallb (fun o => outcome_eqb (spec_on (g_stored c) (o_q o)) (o_res o)) (g_queries c) then [] else [1]) ++
-  (if list_eqb beq (keys_of_store (g_stored c)) (g_keys c) then [] else [2]).
+  (if list_eqb beq (with_value_keys (c_vprefix c) (g_stored c) (keys_of_store (g_stored c))) (g_keys c) then [] else [2]).
 
 Definition mismatches (cs : list c13case) : list (N * N) := run_idx check_case 0 cs.
 Definition violations (cs : list c13case) : list (N * N) := run_idx viol_case 0 cs.
